@@ -263,7 +263,7 @@ pub fn expect(pre: &Snap, op: &OpKind, ovh: usize, vsz: usize) -> Expect {
             }
         }
         OpKind::Dbg => same(Some(Ret::Items(IterKind::Iter, l.iter().map(|e| Some((e.k, e.v))).collect())), "C05"),
-        OpKind::Nop => same(None, "C19"),
+        OpKind::Nop | OpKind::Readers { .. } => same(None, "C19"),
     }
 }
 
@@ -345,7 +345,11 @@ fn dropped(log: &OpLog) -> Vec<u64> {
 pub fn check_outcome(o: &Outcome, ovh: usize, vsz: usize) -> Vec<Fail> {
     let mut v = Vec::new();
     for m in &o.violations {
-        fail(&mut v, "C06", m.clone());
+        if let Some(rest) = m.strip_prefix("C19 ") {
+            fail(&mut v, "C19", rest.to_owned());
+        } else {
+            fail(&mut v, "C06", m.clone());
+        }
     }
     if let Some(post) = &o.post {
         check_state(post, &mut v);
@@ -404,7 +408,7 @@ pub fn check_outcome(o: &Outcome, ovh: usize, vsz: usize) -> Vec<Fail> {
             if rebuilt { format!(" + {} for the rebuild", pre.len) } else { String::new() }));
     }
     let hash_free = matches!(op, OpKind::It { .. } | OpKind::Clear | OpKind::PeekLru | OpKind::PeekMru | OpKind::GetLru
-        | OpKind::Dbg | OpKind::Nop);
+        | OpKind::Dbg | OpKind::Nop | OpKind::Readers { .. });
     if hash_free && h != 0 {
         fail(&mut v, "C20", format!("{} hashed {} keys; traversals, clear and LRU/MRU peeks hash nothing", op.text(), h));
     }
@@ -583,12 +587,16 @@ fn check_capacity(op: &OpKind, pre: &Snap, post: &Snap, o: &Outcome, light: bool
         }
         OpKind::Ins { .. } | OpKind::TIns { .. } => {
             // automatic growth only to the smallest table holding twice the entries
+            // (the capacity doubled is the one at the moment of growth: entries this very call
+            // removed before — the replaced one, evicted ones — that left tombstones lower it)
             if post.bk != pre.bk && post.bk != usize::MAX {
-                let n = (2 * pre.cap).max(1);
-                let want = fresh_cap(n);
-                if post.cap != want {
-                    fail(v, "C13", format!("automatic growth from capacity {} to {} (smallest table for {} is {})",
-                        pre.cap, post.cap, n, want));
+                let removed = (pre.len + 1).saturating_sub(post.len);
+                let lo = pre.cap.saturating_sub(removed);
+                let ok = (lo..=pre.cap).any(|k| post.cap == fresh_cap((2 * k).max(1)));
+                if !ok {
+                    let n = (2 * pre.cap).max(1);
+                    fail(v, "C13", format!("automatic growth from capacity {} to {} (smallest table for {} is {}; {} entries left during the call)",
+                        pre.cap, post.cap, n, fresh_cap(n), removed));
                 }
             }
         }
@@ -653,7 +661,19 @@ pub fn check_panic(o: &Outcome) -> Vec<Fail> {
             if post.cur > post.max {
                 fail(&mut v, "C16", format!("after a panic in the closure of `{}` current_size {} exceeds max_size {}", op.text(), post.cur, post.max));
             }
-            let rejected: Vec<u64> = o.log.events.iter().filter_map(|e| if let Ev::DropK(t) = e { Some(*t) } else { None }).collect();
+            // the entries the predicate rejected before the panicking call (decided from the
+            // predicate itself, not from drop events: a key type without drop glue has none)
+            let mut visited: Vec<u64> = o.log.events.iter().filter_map(|e| if let Ev::Pred(k, _) = e { Some(*k) } else { None }).collect();
+            if kind == Kind::Pred {
+                visited.pop();
+            }
+            let rejected: Vec<u64> = match op {
+                OpKind::RetainIdx(bits) => visited.iter().enumerate()
+                    .filter(|(i, _)| !bits.get(*i).copied().unwrap_or(true)).map(|(_, t)| *t).collect(),
+                OpKind::RetainIds(ids) => visited.iter().copied()
+                    .filter(|t| pre.ord.iter().any(|e| e.k.tok == *t && ids.contains(&e.k.id))).collect(),
+                _ => Vec::new(),
+            };
             for e in &pre.ord {
                 let still = post.ord.iter().any(|x| x.k.tok == e.k.tok);
                 if !still && !rejected.contains(&e.k.tok) {
